@@ -1,0 +1,27 @@
+//go:build verif
+
+package proto
+
+// Contracts for /verif (gvc). Comment-only file; see /verif/DESIGN.md §10 (C15, marshal side).
+// Scalar boxes used to fill optional protobuf fields: a fresh cell holding exactly the argument.
+
+//@ prop C15 C13
+
+//@ func Bool
+//@   ensures result != nil && fresh(result) && deref(result) == v
+//@   assigns nothing
+//@ func Int32
+//@   ensures result != nil && fresh(result) && deref(result) == v
+//@   assigns nothing
+//@ func Int64
+//@   ensures result != nil && fresh(result) && deref(result) == v
+//@   assigns nothing
+//@ func Uint32
+//@   ensures result != nil && fresh(result) && deref(result) == v
+//@   assigns nothing
+//@ func Uint64
+//@   ensures result != nil && fresh(result) && deref(result) == v
+//@   assigns nothing
+//@ func String
+//@   ensures result != nil && fresh(result) && deref(result) == v
+//@   assigns nothing
